@@ -298,7 +298,9 @@ def truncatewords(val: str, num: Any = 15, end: str = "...") -> str:
             token=None,
         ) from err
 
-    end = to_liquid_string(end)
+    # A plain string, like `truncate` builds: an end marker that is Markup must
+    # not switch off the escaping of the result.
+    end = str(to_liquid_string(end))
 
     # Force a minimum `num` of 1.
     if num <= 0:
